@@ -1,3 +1,152 @@
-(* C18 - application-layer package commands; multicast keys (statements follow) *)
+(* C18 - application-layer package commands round-trip; multicast keys follow TS005.
+   Statement file: each theorem is closed by [exact] of a lemma proved in
+   theories/App, followed by Print Assumptions.
+
+   Vocabulary (theories/App): per package a type [payload] (one constructor per
+   payload type of the Go package, fields as N / Z / bool / lists), [enc] =
+   MarshalBinary, [psize] = Size, [lookup uplink cid] = the decoder of the payload
+   the registry creates for that CID and direction, [cmds_enc] / [cmds_dec] =
+   Commands.MarshalBinary / UnmarshalBinary, [cmd_size] = Command.Size.
+   [XX.spec p] is the wire layout of p written from TS003/TS004/TS005/TS006
+   (App/Spec.v), [XX.in_widthb p] says every field fits the width given there,
+   [XXW.wf_stream up cs]: every command of cs is in-width, belongs to direction
+   up and carries the CID of its payload type (or has no payload and the package
+   defines none), and a payload that extends to the end of the message
+   (fragmentation DataFragment) occurs only in last position. *)
 From Coq Require Import List NArith ZArith Bool.
-From LW Require Import Base.Outcome Base.Bytes.
+From LW Require Import Base.Outcome Base.Bytes App.Common App.Spec.
+From LW Require App.ClockSync App.Multicast App.FragCmds App.FwMgmt App.McKeys App.McKeysSpec
+     App.ClockSyncProofs App.MulticastProofs App.FragCmdsProofs App.FwMgmtProofs App.McKeysProofs.
+Import ListNotations.
+Open Scope N_scope.
+
+(* ---- clock synchronization (TS003) ------------------------------------- *)
+Theorem C18_clocksync_payload : forall p rest, CS.in_widthb p = true ->
+  exists bs d, ClockSync.enc p = Ok bs /\ length bs = ClockSync.psize p
+    /\ bs = spec_bytes (CS.spec p)
+    /\ ClockSync.lookup (ClockSync.uplink_of p) (ClockSync.cid_of p) = Some d
+    /\ d (bs ++ rest) = Ok p.
+Proof. exact ClockSyncProofs.payload_roundtrip. Qed.
+Print Assumptions C18_clocksync_payload.
+
+Theorem C18_clocksync_stream : forall up cs, CSW.wf_stream up cs = true ->
+  exists bs, ClockSync.cmds_enc cs = Ok bs
+    /\ length bs = fold_right Nat.add O (map ClockSync.cmd_size cs)
+    /\ bs = CSW.stream_bytes cs
+    /\ ClockSync.cmds_dec up bs = Ok cs.
+Proof. exact ClockSyncProofs.stream_roundtrip. Qed.
+Print Assumptions C18_clocksync_stream.
+
+Theorem C18_clocksync_enc_no_panic : forall p, ClockSync.enc p <> Panic.
+Proof. exact ClockSyncProofs.enc_no_panic. Qed.
+Print Assumptions C18_clocksync_enc_no_panic.
+
+(* ---- remote multicast setup (TS005) ------------------------------------ *)
+Theorem C18_multicast_payload : forall p rest, MC.in_widthb p = true ->
+  exists bs d, Multicast.enc p = Ok bs /\ length bs = Multicast.psize p
+    /\ bs = spec_bytes (MC.spec p)
+    /\ Multicast.lookup (Multicast.uplink_of p) (Multicast.cid_of p) = Some d
+    /\ d (bs ++ rest) = Ok p.
+Proof. exact MulticastProofs.payload_roundtrip. Qed.
+Print Assumptions C18_multicast_payload.
+
+Theorem C18_multicast_stream : forall up cs, MCW.wf_stream up cs = true ->
+  exists bs, Multicast.cmds_enc cs = Ok bs
+    /\ length bs = fold_right Nat.add O (map Multicast.cmd_size cs)
+    /\ bs = MCW.stream_bytes cs
+    /\ Multicast.cmds_dec up bs = Ok cs.
+Proof. exact MulticastProofs.stream_roundtrip. Qed.
+Print Assumptions C18_multicast_stream.
+
+(* for every value of the payload type, in range or not *)
+Theorem C18_multicast_enc_no_panic : forall p, Multicast.enc p <> Panic.
+Proof. exact MulticastProofs.enc_no_panic. Qed.
+Print Assumptions C18_multicast_enc_no_panic.
+
+(* ---- fragmented data block transport (TS004) --------------------------- *)
+(* DataFragment takes everything that is left: nothing may follow it *)
+Theorem C18_fragmentation_payload : forall p rest, FR.in_widthb p = true ->
+  (FRW.greedy p = true -> rest = []) ->
+  exists bs d, FragCmds.enc p = Ok bs /\ length bs = FragCmds.psize p
+    /\ bs = spec_bytes (FR.spec p)
+    /\ FragCmds.lookup (FragCmds.uplink_of p) (FragCmds.cid_of p) = Some d
+    /\ d (bs ++ rest) = Ok p.
+Proof. exact FragCmdsProofs.payload_roundtrip. Qed.
+Print Assumptions C18_fragmentation_payload.
+
+Theorem C18_fragmentation_stream : forall up cs, FRW.wf_stream up cs = true ->
+  exists bs, FragCmds.cmds_enc cs = Ok bs
+    /\ length bs = fold_right Nat.add O (map FragCmds.cmd_size cs)
+    /\ bs = FRW.stream_bytes cs
+    /\ FragCmds.cmds_dec up bs = Ok cs.
+Proof. exact FragCmdsProofs.stream_roundtrip. Qed.
+Print Assumptions C18_fragmentation_stream.
+
+Theorem C18_fragmentation_enc_no_panic : forall p, FragCmds.enc p <> Panic.
+Proof. exact FragCmdsProofs.enc_no_panic. Qed.
+Print Assumptions C18_fragmentation_enc_no_panic.
+
+(* the last-position restriction cannot be dropped *)
+Theorem C18_fragmentation_data_fragment_only_last :
+  exists cs bs, FragCmds.cmds_enc cs = Ok bs /\ FragCmds.cmds_dec false bs <> Ok cs
+    /\ forallb (FRW.wf_cmd false) cs = true.
+Proof. exact FragCmdsProofs.data_fragment_not_last. Qed.
+Print Assumptions C18_fragmentation_data_fragment_only_last.
+
+(* ---- firmware management (TS006) --------------------------------------- *)
+(* the zero-length requests demand an exact length at payload level; the
+   stream decoder hands them exactly their own bytes (next theorem) *)
+Theorem C18_firmware_payload : forall p rest, FW.in_widthb p = true ->
+  (FwMgmtProofs.exact p = true -> rest = []) ->
+  exists bs d, FwMgmt.enc p = Ok bs /\ length bs = FwMgmt.psize p
+    /\ bs = spec_bytes (FW.spec p)
+    /\ FwMgmt.lookup (FwMgmt.uplink_of p) (FwMgmt.cid_of p) = Some d
+    /\ d (bs ++ rest) = Ok p.
+Proof. exact FwMgmtProofs.payload_roundtrip. Qed.
+Print Assumptions C18_firmware_payload.
+
+Theorem C18_firmware_stream : forall up cs, FWW.wf_stream up cs = true ->
+  exists bs, FwMgmt.cmds_enc cs = Ok bs
+    /\ length bs = fold_right Nat.add O (map FwMgmt.cmd_size cs)
+    /\ bs = FWW.stream_bytes cs
+    /\ FwMgmt.cmds_dec up bs = Ok cs.
+Proof. exact FwMgmtProofs.stream_roundtrip. Qed.
+Print Assumptions C18_firmware_stream.
+
+(* for every value, including a "valid image" status without a next version *)
+Theorem C18_firmware_enc_no_panic : forall p, FwMgmt.enc p <> Panic.
+Proof. exact FwMgmtProofs.enc_no_panic. Qed.
+Print Assumptions C18_firmware_enc_no_panic.
+
+(* ---- stream decoders terminate on every byte string ---------------------- *)
+Theorem C18_stream_decoders_terminate : forall up data,
+  ClockSync.cmds_dec up data <> OutOfFuel /\ Multicast.cmds_dec up data <> OutOfFuel
+  /\ FragCmds.cmds_dec up data <> OutOfFuel /\ FwMgmt.cmds_dec up data <> OutOfFuel.
+Proof.
+  intros up data. split; [exact (ClockSyncProofs.stream_dec_terminates up data)|].
+  split; [exact (MulticastProofs.stream_dec_terminates up data)|].
+  split; [exact (FragCmdsProofs.stream_dec_terminates up data)|exact (FwMgmtProofs.stream_dec_terminates up data)].
+Qed.
+Print Assumptions C18_stream_decoders_terminate.
+
+(* ---- multicast keys (TS005), over LW.Crypto.AES.aes_encrypt -------------- *)
+Theorem C18_mckeys_spec : forall key addr, addr_ok addr = true ->
+  McKeys.mc_root_key_for_gen_app_key key = Ok (McKeysSpec.spec_root_gen key)
+  /\ McKeys.mc_root_key_for_app_key key = Ok (McKeysSpec.spec_root_app key)
+  /\ McKeys.mc_ke_key key = Ok (McKeysSpec.spec_ke key)
+  /\ McKeys.mc_app_s_key key addr = Ok (McKeysSpec.spec_app_s key (be_val addr))
+  /\ McKeys.mc_net_s_key key addr = Ok (McKeysSpec.spec_net_s key (be_val addr)).
+Proof. exact McKeysProofs.mckeys_spec. Qed.
+Print Assumptions C18_mckeys_spec.
+
+(* non-vacuity: the Class-B request that used to decode wrongly is well formed
+   and round-trips; a two-command firmware stream starting with the empty
+   DevVersionReq is well formed and round-trips *)
+Example C18_example :
+  MCW.wf_stream false [(5, Some (Multicast.McClassBSessionReq 2 0x01020304 3 8 868100000 5))] = true
+  /\ Multicast.cmds_dec false [5; 2; 4; 3; 2; 1; 0x38; 0x28; 0x76; 0x84; 5]
+     = Ok [(5, Some (Multicast.McClassBSessionReq 2 0x01020304 3 8 868100000 5))]
+  /\ FWW.wf_stream false [(1, Some FwMgmt.DevVersionReq); (2, Some (FwMgmt.DevRebootTimeReq 5))] = true
+  /\ FwMgmt.cmds_dec false [1; 2; 5; 0; 0; 0]
+     = Ok [(1, Some FwMgmt.DevVersionReq); (2, Some (FwMgmt.DevRebootTimeReq 5))].
+Proof. vm_compute. repeat split; reflexivity. Qed.
